@@ -9,6 +9,7 @@
 
 mod cases;
 mod core;
+mod dsp;
 mod findings;
 mod hashseed;
 mod mass;
